@@ -186,7 +186,62 @@ func (w *World) assembledProgram(fn *ssa.Function) (*bpfProg, error) {
 				if c, ok := v.(*ssa.Const); ok {
 					return bv32(c.Uint64()), nil
 				}
-				// a computed operand: symbolic, named after the source variable it comes from
+				// a computed operand: symbolic, named after the source variable it comes from; an expression over the
+				// four configuration values (shifts, masks, sums) is translated term by term
+				base := map[string]bool{"srcAddr": true, "dstAddr": true, "srcPort": true, "dstPort": true}
+				var term func(v ssa.Value, depth int) (string, bool)
+				term = func(v ssa.Value, depth int) (string, bool) {
+					if depth > 8 {
+						return "", false
+					}
+					if c, ok := v.(*ssa.Const); ok {
+						return bv32(c.Uint64()), true
+					}
+					if nm := w.sourceName(fn, v); base[nm] {
+						p.syms[nm] = describeOperand(v)
+						return "k_" + nm, true
+					}
+					switch x := v.(type) {
+					case *ssa.Call:
+						// c.Src.Port() / c.Dst.Port() on the filter configuration
+						if f := x.Call.StaticCallee(); f != nil && f.Name() == "Port" && len(x.Call.Args) == 1 {
+							fname := ""
+							switch a := x.Call.Args[0].(type) {
+							case *ssa.Field:
+								fname = a.X.Type().Underlying().(*types.Struct).Field(a.Field).Name()
+							case *ssa.UnOp:
+								if fa, ok := a.X.(*ssa.FieldAddr); ok {
+									fname = fa.X.Type().Underlying().(*types.Pointer).Elem().Underlying().(*types.Struct).Field(fa.Field).Name()
+								}
+							}
+							switch fname {
+							case "Src":
+								p.syms["srcPort"] = "c.Src.Port()"
+								return "k_srcPort", true
+							case "Dst":
+								p.syms["dstPort"] = "c.Dst.Port()"
+								return "k_dstPort", true
+							}
+						}
+						return "", false
+					case *ssa.Convert:
+						return term(x.X, depth+1)
+					case *ssa.BinOp:
+						a, oka := term(x.X, depth+1)
+						b, okb := term(x.Y, depth+1)
+						if !oka || !okb {
+							return "", false
+						}
+						ops := map[token.Token]string{token.SHL: "bvshl", token.OR: "bvor", token.AND: "bvand", token.ADD: "bvadd", token.SUB: "bvsub", token.XOR: "bvxor", token.SHR: "bvlshr"}
+						if o, ok := ops[x.Op]; ok {
+							return "(" + o + " " + a + " " + b + ")", true
+						}
+					}
+					return "", false
+				}
+				if t, ok := term(v, 0); ok {
+					return t, nil
+				}
 				nm := w.sourceName(fn, v)
 				if nm == "" {
 					return "", fmt.Errorf("operand %s is neither a constant nor a named local", f)
@@ -425,6 +480,7 @@ func bpfReference(name string) (string, bool) {
 type bpfOb struct {
 	Name, Text, Pos, Query string
 	Instrs                int
+	Acc, Ref              string // SMT terms: the program accepts / the reference predicate holds
 }
 
 func (w *World) bpfObligations() ([]bpfOb, []string) {
@@ -483,7 +539,7 @@ func (w *World) bpfObligations() ([]bpfOb, []string) {
 			}
 		}
 		b.WriteString("(assert (not (= " + acc + " " + ref + ")))\n")
-		out = append(out, bpfOb{Name: "packets." + p.name + "#C12.exact", Text: "for all frames, lengths and configurations: program accepts <=> reference predicate of the property statement", Pos: p.pos, Query: b.String(), Instrs: len(p.ins)})
+		out = append(out, bpfOb{Name: "packets." + p.name + "#C12.exact", Text: "for all frames, lengths and configurations: program accepts <=> reference predicate of the property statement", Pos: p.pos, Query: b.String(), Instrs: len(p.ins), Acc: acc, Ref: ref})
 	}
 	return out, errs
 }
